@@ -141,6 +141,9 @@ func seqStep(s []string, padders map[string]padding.Padder) (r func() string) {
 			if err != nil {
 				return constant("err")
 			}
+			// what the library's own packers do with a prefix: append the value to it. Spare capacity
+			// behind the prefix must be the prefix's own, not a table or a buffer other calls read.
+			_ = append(out, 0xEE, 0xEE, 0xEE, 0xEE, 0xEE, 0xEE, 0xEE, 0xEE)
 			return func() string { return "ok " + Hex(out) }
 		case "dec":
 			in, ok := UnHex(s[4])
